@@ -4,7 +4,7 @@ import itertools, math
 ID = "C20"
 LEVEL = "exploration"
 RULE = ("A (demand): 1-2 junctions x 1-2 demand entries/categories x all pairs of pattern lengths from {1,2,3,5,7,24} x pattern "
-        "step {30min,1h,2h} x pattern_start {0,1h,1.5h} x multiplier {1,0.5} x report step {1h,30min}; expected_demand table, "
+        "step {30min,1h,2h} x pattern_start {0,1h,1.5h} x multiplier {1,0.5} x report step {1h,30min} (thorough: lengths {1,2,3,4,5,7,11,24,48}, steps 15 min..3 h, five pattern starts); expected_demand table, "
         "category filter, agreement with a DD WNTRSimulator run, average_expected_demand (= mean over a whole common period) and "
         "population.  B (formulas): water_service_availability, todini_index, modified_resilience_index (both modes), "
         "tank_capacity (cylinder / volume curve), pump_power/energy/cost on synthetic 3-step tables filled from the alphabet "
@@ -19,7 +19,8 @@ ASSUMPTIONS = ["global_efficiency is a percentage (documented: 75 means 75% or 0
                "WSA is judged where expected demand is non-zero, and where both demand and expected demand are zero (NaN)"]
 
 PATS = {1: [1.3], 2: [0.5, 1.5], 3: [1.0, 2.0, 0.5], 5: [0.6, 1.4, 1.0, 0.2, 1.8], 7: [1.0, 0.8, 1.2, 0.4, 1.6, 0.9, 1.1],
-        24: [0.5 + 0.05 * i for i in range(24)]}
+        24: [0.5 + 0.05 * i for i in range(24)], 4: [0.0, 2.0, 1.0, 0.5], 11: [0.3 + 0.17 * ((5 * i) % 11) for i in range(11)],
+        48: [0.25 + 0.03 * ((7 * i) % 48) for i in range(48)]}
 RHO_G = 1000.0 * 9.81
 
 
@@ -30,9 +31,10 @@ def pat_at(mults, t, pstart, pstep):
 # ------------------------------------------------------------------------------------------------ part A
 def cases_A(tier):
     out = []
-    lens = [1, 2, 3, 5, 7, 24]
+    lens = [1, 2, 3, 5, 7, 24] if tier == "quick" else [1, 2, 3, 4, 5, 7, 11, 24, 48]
     pairs = [(a, b) for a in lens for b in lens if a <= b]
-    for (la, lb), pstep, pstart, mult, rep in itertools.product(pairs, (1800, 3600, 7200), (0, 3600, 5400), (1.0, 0.5), (3600, 1800)):
+    psteps, pstarts = ((1800, 3600, 7200), (0, 3600, 5400)) if tier == "quick" else ((900, 1800, 3600, 7200, 10800), (0, 1800, 3600, 5400, 9000))
+    for (la, lb), pstep, pstart, mult, rep in itertools.product(pairs, psteps, pstarts, (1.0, 0.5), (3600, 1800)):
         if tier == "quick" and rep == 1800 and (mult != 1.0 or pstep != 3600):
             continue
         out.append({"part": "A", "la": la, "lb": lb, "pstep": pstep, "pstart": pstart, "mult": mult, "rep": rep})
